@@ -53,6 +53,8 @@ def run_pipe(ctx, cases, shards=None, race=False, binname="pbfpipe", env=None):
         while rest:
             inp = "".join(json.dumps(c, separators=(",", ":")) + "\n" for c in rest)
             e = vlib.goenv()
+            if any(not x["run"]["outcome"].startswith("ok") for x in recs):
+                e["VERIF_SETTLE_S"] = "45"   # a hang has been recorded in this shard already: later ones need not wait minutes
             if race:
                 e["GORACE"] = "halt_on_error=1 exitcode=66"
             if env:
